@@ -113,3 +113,44 @@ def scale():
 
 def scaled_to_float(n):
     return float(Fraction(int(n), scale()))
+
+
+# ---------------------------------------------------------------------------------------
+# corners of phase sequences (plain float arithmetic; only used to *generate* inputs)
+
+
+def element_of_phases(phis):
+    """(I, X): dicts power -> coefficient of R(phi_0) w R(phi_1) ... w R(phi_n)"""
+    c, s = math.cos(phis[0]), math.sin(phis[0])
+    I, X = {0: c}, {0: s}
+    for t in phis[1:]:
+        I = {k + 1: v for k, v in I.items()}
+        X = {k - 1: v for k, v in X.items()}
+        c, s = math.cos(t), math.sin(t)
+        keys = set(I) | set(X)
+        I, X = ({k: c * I.get(k, 0.0) - s * X.get(k, 0.0) for k in keys},
+                {k: s * I.get(k, 0.0) + c * X.get(k, 0.0) for k in keys})
+    return I, X
+
+
+def corner_of_phases(phis):
+    """monomial coefficients (re list, im list) of P(a) = <0|U_x(a)|0> = sum_k (A_k + i B_k) T_|k|(a)"""
+    I, X = element_of_phases(phis)
+    d = len(phis) - 1
+    cre, cim = [0.0] * (d + 1), [0.0] * (d + 1)
+    for k, v in I.items():
+        cre[abs(k)] += v
+    for k, v in X.items():
+        cim[abs(k)] += v
+    pre = [float(x) for x in cheb2mono([Fraction(*float(x).as_integer_ratio()) for x in cre])]
+    pim = [float(x) for x in cheb2mono([Fraction(*float(x).as_integer_ratio()) for x in cim])]
+    # exact zeros of the opposite parity
+    for j in range(d + 1):
+        if (j - d) % 2:
+            pre[j] = 0.0
+            pim[j] = 0.0
+    return pre, pim
+
+
+def cplx_hex(pre, pim):
+    return [["c", hexf(a), hexf(b)] for a, b in zip(pre, pim)]
